@@ -509,24 +509,24 @@ func checkC16(tier string) int {
 		"distinct_nontrivial": len(signatures),
 		"rule": "level A: one evaluation = one parser.Parse call of the overlay-instrumented frontend under one map-iteration schedule (families identity/reverse/rotate/transpose/random/mixed, drawn from VERIF_SEED) compared with the identity schedule of the same sources; " +
 			"level B: one evaluation = one `kddp-ord kompiliere` process (+ execution of its output) under VERIF_ORDER. distinct_nontrivial = distinct order signatures (hash of the sequence of (site, n, permutation) over visits with n >= 2)",
-		"samples":                       samples,
-		"source_sets":                   len(jobs),
-		"source_sets_skipped_crash":     crashed,
-		"level_a_calls":                 calls,
-		"level_b_process_runs":          bRuns,
-		"instrumented_sites":            len(ovSites),
-		"sites_reached_with_n_ge_2":     reached,
+		"samples":                         samples,
+		"source_sets":                     len(jobs),
+		"source_sets_skipped_crash":       crashed,
+		"level_a_calls":                   calls,
+		"level_b_process_runs":            bRuns,
+		"instrumented_sites":              len(ovSites),
+		"sites_reached_with_n_ge_2":       reached,
 		"sites_never_reached_with_n_ge_2": unreached,
-		"distinct_permutations_per_site": permsPerSite,
-		"runs_per_hour":                 perHour(calls, wallA) + perHour(bRuns, wallB),
-		"seeds_per_hour":                perHour(1, time.Since(startT)),
-		"simulated_time_s":              0,
-		"simulated_time_note":           "the compiler reads no clock; the schedule dimension is the order of map iterations",
-		"event_log_sha256":              hex.EncodeToString(evHash.Sum(nil)),
-		"violation_groups":              len(groups),
-		"components_real":               []string{"scanner, parser, resolver, typechecker, annotators (level A)", "whole kddp incl. LLVM and linker, produced executables (level B)"},
-		"components_simulated":          []string{"Go map iteration order (verifsim.Order via go build -overlay; every range over a map, maps.Keys/Values)"},
-		"exhaustive":                    false,
+		"distinct_permutations_per_site":  permsPerSite,
+		"runs_per_hour":                   perHour(calls, wallA) + perHour(bRuns, wallB),
+		"seeds_per_hour":                  perHour(1, time.Since(startT)),
+		"simulated_time_s":                0,
+		"simulated_time_note":             "the compiler reads no clock; the schedule dimension is the order of map iterations",
+		"event_log_sha256":                hex.EncodeToString(evHash.Sum(nil)),
+		"violation_groups":                len(groups),
+		"components_real":                 []string{"scanner, parser, resolver, typechecker, annotators (level A)", "whole kddp incl. LLVM and linker, produced executables (level B)"},
+		"components_simulated":            []string{"Go map iteration order (verifsim.Order via go build -overlay; every range over a map, maps.Keys/Values)"},
+		"exhaustive":                      false,
 	}
 	ev.Assumptions = []string{
 		"every permutation of a map iteration is a legal execution (Go spec), so any divergence is a real order dependence",
